@@ -108,6 +108,19 @@ class IdentityLinearOperator(ConstantDiagLinearOperator):
     ) -> Float[LinearOperator, "*batch M N"]:
         return ConstantDiagLinearOperator(self.diag_values * other, diag_shape=self.diag_shape)
 
+    def _mul_matrix(
+        self: Float[LinearOperator, "... #M #N"],
+        other: Union[Float[torch.Tensor, "... #M #N"], Float[LinearOperator, "... #M #N"]],
+    ) -> Float[LinearOperator, "... M N"]:
+        if isinstance(other, ConstantDiagLinearOperator):
+            if not self.diag_shape == other.diag_shape:
+                raise ValueError(
+                    "Dimension Mismatch: Must have same diag_shape, but got "
+                    f"{self.diag_shape} and {other.diag_shape}"
+                )
+            return ConstantDiagLinearOperator(self.diag_values * other.diag_values, diag_shape=self.diag_shape)
+        return super()._mul_matrix(other)
+
     def _permute_batch(self, *dims: int) -> LinearOperator:
         batch_shape = self.diag_values.permute(*dims, -1).shape[:-1]
         return IdentityLinearOperator(
